@@ -44,11 +44,16 @@ class Multiline:
             "Previous definition: {}\n".format(prev)+
             "Current definition: {}".format(value))
       prev = gfapy.FieldArray(self.get_datatype(tagname), [prev])
-      self._set_existing_field(tagname, prev)
+      new_array = True
+    else:
+      new_array = False
     if self.vlevel > 1:
       prev._vpush(value, datatype, tagname)
     else:
       prev.append(value)
+    if new_array:
+      # stored only now, so that a refused value leaves the tag as it was
+      self._set_existing_field(tagname, prev)
 
   def field_to_s(self, fieldname, tag = False):
     """
@@ -120,9 +125,33 @@ class Multiline:
     -------
     self
     """
+    # refuse the line before any of its tags is merged
+    for of in gfa_line.tagnames:
+      self._check_addable(of, gfa_line.get(of), gfa_line.get_datatype(of))
     for of in gfa_line.tagnames:
       self.add(of, gfa_line.get(of), gfa_line.get_datatype(of))
     return self
+
+  def _check_addable(self, tagname, value, datatype):
+    """Raise the error add() would raise, without changing anything."""
+    prev = self.get(tagname)
+    if prev is None:
+      return
+    if not isinstance(prev, gfapy.FieldArray) and \
+        tagname in self.SINGLE_DEFINITION_TAGS:
+      if self.field_to_s(tagname) != \
+          gfapy.Field._to_gfa_field(value, fieldname=tagname):
+        raise gfapy.InconsistencyError(
+          "Inconsistent values for header tag {} found\n".format(tagname)+
+          "Previous definition: {}\n".format(prev)+
+          "Current definition: {}".format(value))
+    elif self.vlevel > 1 and datatype is not None and \
+        datatype != self.get_datatype(tagname):
+      raise gfapy.InconsistencyError(
+        "Datadatatype mismatch error for field {}:\n".format(tagname)+
+        "value: {}\n".format(value)+
+        "existing datatype: {};\n".format(self.get_datatype(tagname))+
+        "new datatype: {}".format(datatype))
 
   def _tags(self):
     """
